@@ -208,8 +208,11 @@ def parallel_any_order(o0: int, o1: int, o2: int, o3: int, o4: int, o5: int, mx:
     """
     pre: o0 >= 0 and o1 >= 0 and o2 >= 0 and o3 >= 0 and o4 >= 0 and o5 >= 0
     pre: 0 <= mx <= 2 and 0 <= stop <= 2
+    pre: not hx.P.get('big') or (o1 == 0 and o2 == 0 and o3 == 0 and o4 == 0 and o5 == 0 and mx >= 1)
     post: _
     """
+    # ('big' partitions: batches well beyond 4 x workers runs - the size at which pool-based code starts to chunk or group its
+    # work (multiprocessing's own map() heuristic is len / (4 * workers)); only the first completion choice stays symbolic there)
     hx.begin()
     na, nb, reps, procs = hx.P['na'], hx.P['nb'], hx.P['reps'], hx.P['procs']
     BM.built, BM.bad = [], None
@@ -229,7 +232,7 @@ def parallel_any_order(o0: int, o1: int, o2: int, o3: int, o4: int, o5: int, mx:
     order = []
     k = 0
     while idx:
-        o = FakePool.order[k] % len(idx)
+        o = (FakePool.order[k] if k < len(FakePool.order) else 0) % len(idx)     # (FakePool: choices beyond the list are 0)
         k += 1
         for c in range(len(idx)):
             if o == c:
@@ -328,7 +331,8 @@ def obligations(tier):
            {"collectors": "c", "R": 1, "T": 2, "model": "nested"}, {"collectors": ["c", "d"], "R": 2, "T": 2, "positional": True}],
           labels=("three_runs", "completes_before_limit", "limit_before_completion"), timeout=1200, encoded=enc),
         X("parallel_any_order", parallel_any_order,
-          parts=[{"na": a, "nb": b, "reps": r, "procs": p} for (a, b, r) in shapes for p in (2,)] + [{"na": 2, "nb": 1, "reps": 1, "procs": 16}],
+          parts=[{"na": a, "nb": b, "reps": r, "procs": p} for (a, b, r) in shapes for p in (2,)] + [{"na": 2, "nb": 1, "reps": 1, "procs": 16}] +
+          [{"na": 17, "nb": 1, "reps": 1, "procs": 2, "big": True}, {"na": 5, "nb": 5, "reps": 1, "procs": 3, "big": True}],
           labels=("permuted",), labels_for=lambda p: ("permuted",) if p["na"] * p["nb"] * p["reps"] > 1 else (), timeout=1200, encoded=enc),
         X("error_propagates", error_propagates, parts=[{"procs": 1}, {"procs": 2}, {"procs": 1, "exc": "StopIteration"}, {"procs": 2, "exc": "StopIteration"}],
           labels=("propagated",), timeout=600, encoded=enc),
